@@ -61,7 +61,23 @@ def _exn(e):
     return [0, _codes()['exn_code'].get(type(e).__name__, 98)]
 
 
+FMT_STAGES = {
+    # stage -> (Gallina function of Inst/EncodeFmt.v, options of sqlparse.format)
+    'fmt_sw': ('k_fmt_sw', {'strip_whitespace': True}),
+    'fmt_sp': ('k_fmt_sp', {'use_space_around_operators': True}),
+    'fmt_ri': ('k_fmt_ri', {'reindent': True}),
+    'fmt_al': ('k_fmt_al', {'reindent_aligned': True}),
+}
+
+
 def impl_stage(stage, text):
+    if stage in FMT_STAGES:
+        import sqlparse
+        try:
+            out = sqlparse.format(text, **FMT_STAGES[stage][1])
+            return [1] + _enc_text(out)
+        except Exception as e:  # noqa
+            return _exn(e)
     from sqlparse import lexer
     from sqlparse.engine.statement_splitter import StatementSplitter
     import impl
@@ -93,9 +109,9 @@ def impl_stage(stage, text):
 
 def kernel_stage(stage, texts, timeout=600):
     """Evaluate k_<stage> on every text inside Coq (vm_compute); returns the list of encodings, or raises RuntimeError."""
-    fn = {'lex': 'k_lex', 'split': 'k_split', 'parse': 'k_parse'}[stage]
+    fn = FMT_STAGES[stage][0] if stage in FMT_STAGES else {'lex': 'k_lex', 'split': 'k_split', 'parse': 'k_parse'}[stage]
     body = '; '.join('[' + '; '.join(str(ord(c)) for c in t) + ']' if t else '[]' for t in texts)
-    src = ('From SqlModel Require Import Base.\nFrom SqlModel.Inst Require Import Encode.\n'
+    src = ('From SqlModel Require Import Base.\nFrom SqlModel.Inst Require Import Encode%s.\n' % (' EncodeFmt' if stage in FMT_STAGES else '') +
            'Local Open Scope N_scope.\n'
            'Definition cases : list (list N) := [%s].\n'
            'Eval vm_compute in (map %s cases).\n' % (body, fn))
